@@ -150,6 +150,18 @@ fn gen_c07_case(rng: &mut Rng) -> C07Case {
         let at = rng.below(questions.len() + 1);
         questions.insert(at, question(&qname, qt(RecordType::A)));
     }
+    // one case in ten: two sibling zones hosting each other's only name server, reachable through the parent's glue alone
+    if rng.chance(1, 10) {
+        let dual = !matches!(protocol, ProtocolMode::OnlyV4);
+        if dual || matches!(protocol, ProtocolMode::OnlyV4 | ProtocolMode::PreferV4) {
+            for qname in universe::add_mutual(&mut u, dual) {
+                if rng.chance(2, 3) {
+                    let at = rng.below(questions.len() + 1);
+                    questions.insert(at, question(&qname, qt(RecordType::A)));
+                }
+            }
+        }
+    }
     C07Case {
         u: Arc::new(u),
         mode: Mode::recursive(protocol, *rng.pick(&[53u16, 53, 5353, 1, 65535])),
